@@ -30,6 +30,7 @@ class Body:
         self.nb = len(self.blocks)
         self._build_cfg()
         self._build_defs()
+        self._build_mutdefs()
         self._dom = None
         self._pdom = None
         self._upvars = None
@@ -200,6 +201,59 @@ class Body:
                     self.defs[p["l"]].append(Def(i, "term", "call", t))
                 else:
                     self.partial_defs[p["l"]].append(Def(i, "term", "call", t))
+
+    def _build_mutdefs(self):
+        """A call that receives `&mut x` (directly or through reborrows / moves of the
+        reference) may mutate x: record it as an additional definition of x."""
+        ref_of = {}
+        changed = True
+        rounds = 0
+        while changed and rounds < 6:
+            changed = False
+            rounds += 1
+            for l, ds in list(self.defs.items()):
+                if l in ref_of or len(ds) != 1 or ds[0].kind != "assign":
+                    continue
+                r = ds[0].data["r"]
+                tgt = None
+                if r["k"] in ("ref", "rawptr") and r.get("m", True):
+                    p = r["p"]
+                    if all(e == "*" for e in p["pr"]):
+                        if not p["pr"]:
+                            tgt = p["l"]
+                        elif p["l"] in ref_of:
+                            tgt = ref_of[p["l"]]
+                        elif self.is_arg(p["l"]) and self.locals[p["l"]]["ty"].startswith("&mut"):
+                            tgt = p["l"]
+                elif r["k"] == "use" and r["o"]["k"] in ("move", "copy") and not r["o"]["p"]["pr"] and r["o"]["p"]["l"] in ref_of:
+                    tgt = ref_of[r["o"]["p"]["l"]]
+                if tgt is not None and self.locals[l]["ty"].startswith(("&mut", "*mut")):
+                    ref_of[l] = tgt
+                    changed = True
+            # a call that takes a tracked `&mut x` and returns a `&mut _` hands out a view of x
+            for l, ds in list(self.defs.items()):
+                if l in ref_of or len(ds) != 1 or ds[0].kind != "call":
+                    continue
+                if not self.locals[l]["ty"].startswith("&mut"):
+                    continue
+                tgt = None
+                for a in ds[0].data["args"]:
+                    if a["k"] in ("move", "copy") and not a["p"]["pr"] and a["p"]["l"] in ref_of:
+                        tgt = ref_of[a["p"]["l"]]
+                if tgt is not None:
+                    ref_of[l] = tgt
+                    changed = True
+        self.mutref_of = ref_of
+        for i, b in enumerate(self.blocks):
+            if b["cleanup"]:
+                continue
+            t = b["term"]
+            if t["k"] != "call":
+                continue
+            for a in t["args"]:
+                if a["k"] in ("move", "copy") and not a["p"]["pr"] and a["p"]["l"] in ref_of:
+                    x = ref_of[a["p"]["l"]]
+                    self.defs[x].append(Def(i, "term", "mutcall", t))
 
     def local_name(self, l):
         return self.locals[l].get("name")
